@@ -1,5 +1,6 @@
 import ERP.Lemmas.StepInv
 import ERP.Spec.Reader
+import ERP.Lemmas.GenTies
 /-! # C19 — Parameter extraction matches the RS274/Marlin reading
 
 Proved here: the tokenizer half (`parameterItems_eq_spec`, for *every* text) and, for every word
